@@ -5,6 +5,7 @@ package main
 
 import (
 	"fmt"
+	"runtime"
 	"sort"
 	"strings"
 	"sync"
@@ -388,6 +389,138 @@ func concurrentCase(r *vk.Run, c *vk.Case) {
 	}
 }
 
+// ------------------------------------------------------------------------------------------------
+// burst monitor: rounds of {Clear, N Adds of distinct keys released together, sweep}. The filter is tiny
+// (2..4 bytes) so that the concurrent Adds update the same bytes, and its hashers are decorated with a
+// rendezvous: every Compute call of a round returns only once all the Compute calls of that round have
+// arrived, so that the Adds reach the filter update at the same moment. The decorator acts before Add takes
+// its mutex (Compute is called by getBitsIndexes, outside any lock), i.e. at a point where the real code can be
+// pre-empted for any length of time. Oracle: after all the Adds of the round returned (and no Clear since),
+// MayContain is true for each of their keys.
+
+type rendezvous struct {
+	armed   int32
+	parties int32
+	arrived int32
+	stagger int32 // >0: after the release, yield (hash of the input mod stagger) times
+	gaveUp  int64
+}
+
+func (b *rendezvous) arm(parties int) {
+	atomic.StoreInt32(&b.arrived, 0)
+	atomic.StoreInt32(&b.parties, int32(parties))
+	atomic.StoreInt32(&b.armed, 1)
+}
+
+func (b *rendezvous) disarm() { atomic.StoreInt32(&b.armed, 0) }
+
+func (b *rendezvous) wait(salt byte) {
+	if atomic.LoadInt32(&b.armed) != 1 {
+		return
+	}
+	atomic.AddInt32(&b.arrived, 1)
+	for spins := 0; atomic.LoadInt32(&b.arrived) < atomic.LoadInt32(&b.parties); spins++ {
+		if spins > 5000000 { // never expected (the party count is exact); only a guard against a hang
+			atomic.AddInt64(&b.gaveUp, 1)
+			return
+		}
+		runtime.Gosched()
+	}
+	if st := atomic.LoadInt32(&b.stagger); st > 0 {
+		for i := int32(salt) % st; i > 0; i-- {
+			runtime.Gosched()
+		}
+	}
+}
+
+// rendezvousHasher is a hashing.Hasher decorator: same digests as the wrapped hasher
+type rendezvousHasher struct {
+	hashing.Hasher
+	b *rendezvous
+}
+
+func (h *rendezvousHasher) Compute(s string) []byte {
+	res := h.Hasher.Compute(s)
+	var salt byte
+	if len(res) > 0 {
+		salt = res[len(res)-1]
+	}
+	h.b.wait(salt)
+	return res
+}
+
+func burstCase(r *vk.Run, c *vk.Case) {
+	rng := c.Rng
+	size := rng.Range(2, 4)
+	nh := rng.Range(1, size-1) // NewFilter wants size > number of hashers
+	if nh > 3 {
+		nh = 3
+	}
+	p := rng.Perm(3)[:nh]
+	bar := &rendezvous{}
+	if rng.Chance(1, 3) {
+		bar.stagger = int32(rng.Range(2, 4))
+	}
+	var hs []hashing.Hasher
+	var names []string
+	for _, i := range p {
+		hs = append(hs, &rendezvousHasher{Hasher: mkHasher(i), b: bar})
+		names = append(names, hasherNames[i])
+	}
+	hname := strings.Join(names, "+")
+	f, err := bloom.NewFilter(uint(size), hs)
+	if err != nil {
+		r.Violation(c.Idx, "constructor", fmt.Sprintf("NewFilter(%d, %s): %v", size, hname, err), nil)
+		return
+	}
+	adders := rng.Range(3, 8)
+	rounds := r.N(burstRoundsQuick, burstRoundsThorough)
+	keys := make([][]byte, adders)
+	for round := 0; round < rounds; round++ {
+		f.Clear() // quiescent: no other goroutine touches the filter
+		for i := range keys {
+			keys[i] = append(rng.Bytes(rng.Range(1, 24)), byte(i)) // distinct within the round
+		}
+		bar.arm(adders * nh)
+		var wg sync.WaitGroup
+		wg.Add(adders)
+		for i := range keys {
+			go func(k []byte) {
+				f.Add(k)
+				wg.Done()
+			}(append([]byte{}, keys[i]...))
+		}
+		wg.Wait()
+		bar.disarm()
+		for i, k := range keys {
+			r.Eval(1)
+			if !f.MayContain(k) {
+				all := make([]string, len(keys))
+				for j := range keys {
+					all[j] = vk.Hex(keys[j])
+				}
+				r.Violation(c.Idx, "false-negative mode=concurrent-burst",
+					fmt.Sprintf("size=%d hashers=%s: %d keys added by concurrent Add calls released together after a Clear; all Adds returned, MayContain(%x) is false (round %d)", size, hname, adders, k, round),
+					map[string]interface{}{"size": size, "hashers": hname, "round": round, "keys": all, "lost": i})
+				r.Count("burst_rounds", round+1)
+				return
+			}
+		}
+	}
+	r.Count("burst_rounds", rounds)
+	r.Count("burst_adds", rounds*adders)
+	r.Count("burst_rendezvous_gave_up", int(atomic.LoadInt64(&bar.gaveUp)))
+	r.Shape(fmt.Sprintf("burst size=%d h=%s adders=%d stagger=%d", size, hname, adders, bar.stagger))
+	if c.Idx%7 == 0 && r.NeedSample() {
+		r.Sample(map[string]interface{}{"mode": "burst", "size": size, "hashers": hname, "adders": adders, "rounds": rounds, "stagger": bar.stagger})
+	}
+}
+
+const (
+	burstRoundsQuick    = 100
+	burstRoundsThorough = 500
+)
+
 func describe(h []porcupine.Operation, keys [][]byte) []string {
 	sort.Slice(h, func(i, j int) bool { return h[i].Call < h[j].Call })
 	var out []string
@@ -414,10 +547,24 @@ func main() {
 	nSeq := r.N(500, 5000)
 	nConc := r.N(250, 1500)
 	r.Parallel(nSeq+nConc, func(c *vk.Case) {
-		if c.Idx < nSeq {
+		switch {
+		case c.Idx < nSeq:
 			sequentialCase(r, c)
-		} else {
+		case c.Idx < nSeq+nConc:
 			concurrentCase(r, c)
+		} // a replayed burst case is run below
+	})
+
+	// burst rounds: few cases at a time, so that the parties of a rendezvous really run in parallel
+	nBurst := r.N(60, 200)
+	bw := runtime.GOMAXPROCS(0) / 6
+	if bw < 1 {
+		bw = 1
+	}
+	base := nSeq + nConc
+	r.ParallelW(base+nBurst, bw, func(c *vk.Case) {
+		if c.Idx >= base {
+			burstCase(r, c)
 		}
 	})
 
